@@ -270,11 +270,16 @@ func (rd *remoteDelivery) connectionForDomain(ctx context.Context, domain string
 	// each other. Therefore it is enough to enforce strict security only on
 	// the path to the MX even if it does not support the REQUIRETLS to propagate
 	// this requirement further.
+	//
+	// Only the MAIL command of this connection is relaxed: the message
+	// metadata is shared with the connections for the other recipient domains
+	// of the delivery and they still have to meet the requirement.
+	mailOpts := rd.msgMeta.SMTPOpts
 	if ok, _ := conn.Client().Extension("REQUIRETLS"); rd.rt.relaxedREQUIRETLS && !ok {
-		rd.msgMeta.SMTPOpts.RequireTLS = false
+		mailOpts.RequireTLS = false
 	}
 
-	if err := conn.Mail(ctx, rd.mailFrom, rd.msgMeta.SMTPOpts); err != nil {
+	if err := conn.Mail(ctx, rd.mailFrom, mailOpts); err != nil {
 		verifMail(rd, conn, err)
 		// The connection is not added to rd.connections, so Close will not
 		// release the destination limit for it.
